@@ -4,6 +4,7 @@ import (
 	"encoding/base64"
 	"fmt"
 	"github.com/Oneledger/protocol/utils/verifclock"
+	"github.com/Oneledger/protocol/utils/verifmap"
 	"io"
 	"io/ioutil"
 	"os"
@@ -157,11 +158,68 @@ var clockOwner int
 
 func init() {
 	verifclock.Offset = func() time.Duration { return time.Duration(clockOwner) * 90061 * time.Second }
+	verifmap.Policy = mapOrder
+}
+
+// The map-order seam: every `range` over a map in the repository's packages is compiled as a loop over the
+// map's keys arranged by verifmap.Arrange (build overlay, cmd/genoverlay/maporder.go). With MapOrderDictated
+// off every loop keeps the order Go's own randomised iteration produced. With it on (C01, whose subject is exactly
+// this source) the node whose call is in flight decides: the reference replica (index 0) visits keys in
+// ascending order, replica 1 descending, replica 2 a rotation that depends on the site, replica 3 a fixed
+// pseudo-random permutation per (site, size), replica 4 Go's native order, and so on in turns. The order is a
+// function of (replica index, site, number of keys) only, so a block re-executed after a restart sees the same
+// order and a replay file reproduces the run exactly; a state-writing loop whose result depends on the order
+// diverges deterministically instead of "on some runs".
+var MapOrderDictated bool
+
+// MapSites counts, per site, the loops that ran over at least two keys in this process (reach measure).
+var MapSites = map[string]int{}
+
+func mapOrder(site string, n int) []int {
+	MapSites[site]++
+	if !MapOrderDictated {
+		return nil
+	}
+	perm := make([]int, n)
+	for i := range perm {
+		perm[i] = i
+	}
+	if clockOwner == 0 {
+		return perm
+	}
+	h := uint64(1469598103934665603)
+	for i := 0; i < len(site); i++ {
+		h = (h ^ uint64(site[i])) * 1099511628211
+	}
+	switch (clockOwner - 1) % 4 {
+	case 0: // descending
+		for i := range perm {
+			perm[i] = n - 1 - i
+		}
+	case 1: // rotation by 1..n-1
+		r := 1 + int(h%uint64(n-1))
+		for i := range perm {
+			perm[i] = (i + r) % n
+		}
+	case 2: // fixed permutation per (site, n, replica)
+		x := h ^ uint64(n)*0x9e3779b97f4a7c15 ^ uint64(clockOwner)<<32
+		for i := n - 1; i > 0; i-- {
+			x ^= x << 13
+			x ^= x >> 7
+			x ^= x << 17
+			j := int(x % uint64(i+1))
+			perm[i], perm[j] = perm[j], perm[i]
+		}
+	default:
+		return nil // Go's own order
+	}
+	return perm
 }
 
 // Start boots the node from its disk: real NewApp, generated Prepare half, real Handshaker.
 // It returns a *SimCrash error if the scheduler crashed the node during the handshake.
 func (r *Replica) Start() (err error) {
+	clockOwner = r.Spec.Index
 	t0 := time.Now()
 	defer func() { Timing["start"] += time.Since(t0) }()
 	cfg, err := readNodeConfig(r.Disk.Root())
